@@ -202,21 +202,53 @@ def run(prog, rep, tier):
         body = one_body(prog, rep, 'R10.2', 'mla', adt=adt, name='seek', trait='std::io::Seek')
         if body is None:
             continue
+        from ..inline import inlined_body
+        if start_arm(body) is not None:
+            plain_arm = start_arm(body)
+            # the Start arm may delegate to a private method (`SeekFrom::Start(pos) => self.seek_from_start(pos)`): examine it with that method spliced in
+            arm_calls = [b for b in body.calls() if body.edge_dominates((plain_arm[0], plain_arm[1]), b.idx)]
+            if not any(s.kind == 'assign' and s.place == (0, ()) and s.rv.r == 'aggregate' and s.rv.j.get('variant') == 'Ok'
+                       for b in body.blocks if body.edge_dominates((plain_arm[0], plain_arm[1]), b.idx) for s in b.stmts):
+                body = inlined_body(prog, body, depth=1, skip=('load_in_cache', 'sync_inner_with_uncompressed_pos', 'new_decompressor_at'))
         sa = start_arm(body)
         if sa is None:
             rep.ob('R10.2', False, 'R10.2|%s|start-arm' % body.nkey, 'no SeekFrom::Start arm found', body.loc())
             continue
         sbb, tgt, si = sa
         arm_blocks = {b for b in body.reachable(tgt) if body.edge_dominates((sbb, tgt), b)}
+        # (after splicing a helper in, its result local is copied into _0)
+        ret_copies = {s.rv.ops[0].place[0] for b in body.blocks if b.idx in arm_blocks for s in b.stmts
+                      if s.kind == 'assign' and s.place == (0, ()) and s.rv.r == 'use' and s.rv.ops[0].place is not None and not s.rv.ops[0].place[1]}
         oks = [(b.idx, i) for b in body.blocks if b.idx in arm_blocks and not b.cleanup for i, s in enumerate(b.stmts)
-               if s.kind == 'assign' and s.place == (0, ()) and s.rv.r == 'aggregate' and s.rv.j.get('variant') == 'Ok']
+               if s.kind == 'assign' and (s.place == (0, ()) or (not s.place[1] and s.place[0] in ret_copies)) and s.rv.r == 'aggregate' and s.rv.j.get('variant') == 'Ok']
         rep.floor('R10.2.%s' % adt.rsplit('::', 1)[-1], len(oks), 1, 'Ok results of the Start arm')
         written = collections.defaultdict(list)   # field -> blocks
+        # locals that are `self` (the parameter, copies and reborrows of it -- a spliced-in method has its own)
+        # greatest fixpoint over the locals of self's type: kept while every definition copies / reborrows another kept local
+        selfs = {1} | {l_ for l_ in body.defs if body.lty(l_) == body.lty(1)}
+        shrunk = True
+        while shrunk:
+            shrunk = False
+            for l_ in sorted(selfs - {1}):
+                for d_ in body.defs.get(l_, []):
+                    src_ = None
+                    if d_[2] == 'assign' and d_[3].place[1]:
+                        continue      # a store through the reference, not a redefinition of it
+                    if d_[2] == 'assign' and not d_[3].place[1]:
+                        rv_ = d_[3].rv
+                        if rv_.r == 'use' and rv_.ops[0].place is not None and not rv_.ops[0].place[1]:
+                            src_ = rv_.ops[0].place[0]
+                        elif rv_.r == 'ref' and rv_.place is not None and rv_.place[1] == (('deref',),):
+                            src_ = rv_.place[0]
+                    if src_ not in selfs:
+                        selfs.discard(l_)
+                        shrunk = True
+                        break
         for b in body.blocks:
             if b.idx not in arm_blocks or b.cleanup:
                 continue
             for i, s in enumerate(b.stmts):
-                if s.kind == 'assign' and s.place[0] == 1 and place_fields(s.place):
+                if s.kind == 'assign' and s.place[0] in selfs and place_fields(s.place):
                     written[place_fields(s.place)[0]].append(b.idx)
             t = b.term
             if t.kind == 'call':
@@ -224,9 +256,9 @@ def run(prog, rep, tier):
                     if a_.place is None or '&mut' not in aty:
                         continue
                     e = expr_of(body, a_)
-                    if e[0] == 'ref' and e[1][0] == 1 and place_fields(e[1]):
+                    if e[0] == 'ref' and e[1][0] in selfs and place_fields(e[1]):
                         written[place_fields(e[1])[0]].append(b.idx)
-                    elif a_.place[0] == 1 or (e[0] == 'ref' and e[1][0] == 1 and not place_fields(e[1])):
+                    elif a_.place[0] in selfs or (e[0] == 'ref' and e[1][0] in selfs and not place_fields(e[1])):
                         # &mut self handed to a method: rewrites what that method assigns
                         cands, _ = resolve_call(prog, body, t)
                         for c in cands:
